@@ -138,6 +138,9 @@ Aux:
 	if ai < len(args) {
 		ErrorPanic(s, depth, "Too many arguments to %s. There are %d extra.", lam, ai+1)
 	}
+	if required := lam.Doc.requiredCount(); len(args) < required {
+		ErrorPanic(s, depth, "Too few arguments to %s. At least %d expected but got %d.", lam, required, len(args))
+	}
 	if 0 < len(rest) {
 		ss.Let(restSym, rest)
 	}
